@@ -20,6 +20,7 @@ import (
 	"github.com/gopcua/opcua/ua"
 	"github.com/gopcua/opcua/uasc"
 
+	"verifharness/keys"
 	"verifharness/vfgo"
 )
 
@@ -37,6 +38,21 @@ func FreePort() (int, error) {
 // Start builds a server (policy None, anonymous), lets populate add namespaces/nodes and
 // starts it on a free port. Port collisions are retried.
 func Start(populate func(*server.Server)) (*server.Server, string, error) {
+	return StartOpts(populate)
+}
+
+// SecureOpts enables Basic256Sha256/Sign (besides None) with the harness key "2048a".
+func SecureOpts() []server.Option {
+	k := keys.Get("2048a")
+	return []server.Option{
+		server.EnableSecurity("Basic256Sha256", ua.MessageSecurityModeSign),
+		server.PrivateKey(k.Key),
+		server.Certificate(k.Cert),
+	}
+}
+
+// StartOpts is Start with additional server options (security, logger).
+func StartOpts(populate func(*server.Server), extra ...server.Option) (*server.Server, string, error) {
 	var last error
 	for try := 0; try < 5; try++ {
 		port, err := FreePort()
@@ -44,11 +60,12 @@ func Start(populate func(*server.Server)) (*server.Server, string, error) {
 			last = err
 			continue
 		}
-		s := server.New(
+		opts := append([]server.Option{
 			server.EndPoint("127.0.0.1", port),
 			server.EnableSecurity("None", ua.MessageSecurityModeNone),
 			server.EnableAuthMode(ua.UserTokenTypeAnonymous),
-		)
+		}, extra...)
+		s := server.New(opts...)
 		if populate != nil {
 			populate(s)
 		}
@@ -90,11 +107,27 @@ type Raw struct {
 	SC *uasc.SecureChannel
 }
 
-func DialRaw(url string) (*Raw, error) {
+func DialRaw(url string) (*Raw, error) { return dialRaw(url, false) }
+
+// DialRawSecure opens a Basic256Sha256/Sign channel (client key "2048b") to a server started
+// with SecureOpts.
+func DialRawSecure(url string) (*Raw, error) { return dialRaw(url, true) }
+
+// ClientCert is the certificate the secured raw client presents.
+func ClientCert() []byte { return keys.Get("2048b").Cert }
+
+func dialRaw(url string, secure bool) (*Raw, error) {
 	var last error
 	for try := 0; try < 3; try++ {
-		c, err := opcua.NewClient(url, opcua.SecurityMode(ua.MessageSecurityModeNone), opcua.AutoReconnect(false),
-			opcua.RequestTimeout(5*time.Second))
+		opts := []opcua.Option{opcua.SecurityMode(ua.MessageSecurityModeNone), opcua.AutoReconnect(false),
+			opcua.RequestTimeout(5 * time.Second)}
+		if secure {
+			ck := keys.Get("2048b")
+			opts = []opcua.Option{opcua.SecurityPolicy("Basic256Sha256"), opcua.SecurityMode(ua.MessageSecurityModeSign),
+				opcua.PrivateKey(ck.Key), opcua.Certificate(ck.Cert), opcua.RemoteCertificate(keys.Get("2048a").Cert),
+				opcua.AutoReconnect(false), opcua.RequestTimeout(5 * time.Second)}
+		}
+		c, err := opcua.NewClient(url, opts...)
 		if err != nil {
 			return nil, err
 		}
@@ -131,11 +164,20 @@ func (r *Raw) Do(req ua.Request, token *ua.NodeID, timeout time.Duration) (ua.Re
 
 // ServiceResult extracts the service result of a response; an error that is a status code
 // (the channel turns ServiceFaults into errors) is returned as that code.
+//
+// Status codes the *client side* produces when no answer arrived (time-out, channel gone) are not
+// answers of the server: they are reported as "no result" (driver trouble, never a verdict).
 func ServiceResult(resp ua.Response, err error) (ua.StatusCode, bool) {
 	if resp != nil && resp.Header() != nil {
 		return resp.Header().ServiceResult, true
 	}
 	if sc, ok := err.(ua.StatusCode); ok {
+		switch sc {
+		case ua.StatusBadTimeout, ua.StatusBadServerNotConnected, ua.StatusBadConnectionClosed,
+			ua.StatusBadSecureChannelClosed, ua.StatusBadCommunicationError, ua.StatusBadNotConnected,
+			ua.StatusBadRequestInterrupted:
+			return 0, false
+		}
 		return sc, true
 	}
 	return 0, false
